@@ -120,6 +120,9 @@ func runPair1(m *Model, r *RuleResult) {
 		// recursive visitor with a map marked true for a parameter
 		self := staticCalls(f, func(c *ssa.Function) bool { return c == f })
 		if len(self) == 0 {
+			if pair1Iterative(m, r, f, rev) {
+				n++
+			}
 			continue
 		}
 		// candidate stack sets: maps with an update (param, true) ; visited-only maps have no false update
@@ -287,6 +290,309 @@ func runPair1(m *Model, r *RuleResult) {
 	if n == 0 {
 		r.undecided("dfs-visitor", "-", "a collecting depth-first visitor must exist in package phase1", "none recognised")
 	}
+}
+
+// pair1Iterative: the depth-first visitor written with an explicit stack. The set that classifies an edge as a back edge must
+// mirror the stack: every push (the initial one included) comes with `set[x] = true` for the pushed node - directly or through
+// a helper that marks its parameter - and every pop with `set[y] = false` for the node of the popped frame. Returns false when
+// f is not such a visitor.
+func pair1Iterative(m *Model, r *RuleResult, f *ssa.Function, rev *ssa.Function) bool {
+	// collect store: append into a field slice
+	var collect []*ssa.Store
+	eachInstr(f, func(in ssa.Instruction) {
+		if st, ok := in.(*ssa.Store); ok {
+			if _, ok := st.Addr.(*ssa.FieldAddr); ok {
+				if call, ok := st.Val.(*ssa.Call); ok {
+					if b, ok := call.Call.Value.(*ssa.Builtin); ok && b.Name() == "append" {
+						collect = append(collect, st)
+					}
+				}
+			}
+		}
+	})
+	if len(collect) == 0 {
+		return false
+	}
+	// the explicit stack: a slice phi at a loop head with a pop edge x[:len(x)-1] and a push edge append(x, ...)
+	var stack *ssa.Phi
+	var pops []*ssa.Slice
+	var pushes []*ssa.Call
+	for _, l := range naturalLoops(f) {
+		for _, in := range l.Head.Instrs {
+			ph, ok := in.(*ssa.Phi)
+			if !ok {
+				break
+			}
+			if _, isSl := ph.Type().Underlying().(*types.Slice); !isSl {
+				continue
+			}
+			var ps []*ssa.Slice
+			var pu []*ssa.Call
+			for _, e := range ph.Edges {
+				switch x := e.(type) {
+				case *ssa.Slice:
+					if x.X == ssa.Value(ph) && x.Low == nil && x.High != nil {
+						if bo, ok := x.High.(*ssa.BinOp); ok && bo.Op == token.SUB {
+							if c, isC := constInt(bo.Y); isC && c == 1 {
+								ps = append(ps, x)
+							}
+						}
+					}
+				case *ssa.Call:
+					if b, ok := x.Call.Value.(*ssa.Builtin); ok && b.Name() == "append" && len(x.Call.Args) == 2 && x.Call.Args[0] == ssa.Value(ph) {
+						pu = append(pu, x)
+					}
+				}
+			}
+			if len(ps) > 0 && len(pu) > 0 {
+				stack, pops, pushes = ph, ps, pu
+			}
+		}
+	}
+	if stack == nil {
+		return false
+	}
+	ctl := m.FuncIsPosctl(f)
+	key := "dfs-visitor:" + funcKey(f)
+	pos := m.Pos(f.Pos())
+	// the guarding set
+	guardSet := ""
+	for _, st := range collect {
+		gs, keyOK := "", false
+		for _, d := range transitiveControlDeps(st.Block()) {
+			lk, ok := d.If.Cond.(*ssa.Lookup)
+			if !ok || d.Branch != 0 {
+				continue
+			}
+			if o := mapOrigin(lk.X); o != "" {
+				gs = o
+				keyOK = isLoadOf(lk.Index, igEdge+".To")
+			}
+		}
+		switch {
+		case gs == "":
+			r.add(Obligation{Key: key + ":collect-guard", Pos: m.Pos(st.Pos()), Desc: "back-edge collection must be guarded by the stack set", Verdict: "violation",
+				Detail: "edges are collected without a positive lookup in a set maintained by the visitor: forward/cross edges get reversed too (reversed set no longer irredundant)", Control: ctl})
+			return true
+		case !keyOK:
+			r.add(Obligation{Key: key + ":collect-guard", Pos: m.Pos(st.Pos()), Desc: "stack-set lookup must be keyed by the edge's To", Verdict: "violation", Detail: "lookup key is not e.To", Control: ctl})
+			return true
+		}
+		guardSet = gs
+		r.add(Obligation{Key: key + ":collect-guard", Pos: m.Pos(st.Pos()), Desc: "edges are collected only under a positive stack-set lookup keyed by e.To", Verdict: "holds", Control: ctl})
+	}
+	// marks of the set: blocks of f that set guardSet[x] = true, with x; helpers that mark their parameter
+	markedIn := func(b *ssa.BasicBlock) []ssa.Value {
+		var out []ssa.Value
+		for _, in := range b.Instrs {
+			switch x := in.(type) {
+			case *ssa.MapUpdate:
+				if mapOrigin(x.Map) == guardSet && isConstBool(x.Value, true) {
+					out = append(out, x.Key)
+				}
+			case *ssa.Call:
+				h := x.Call.StaticCallee()
+				if h == nil || pkgPathOf(h) != pkgPathOf(f) {
+					continue
+				}
+				eachInstr(h, func(in2 ssa.Instruction) {
+					if mu, ok := in2.(*ssa.MapUpdate); ok && mapOrigin(mu.Map) == guardSet && isConstBool(mu.Value, true) {
+						if pi := paramIndex(h, mu.Key); pi >= 0 && pi < len(x.Call.Args) {
+							out = append(out, x.Call.Args[pi])
+						}
+					}
+				})
+			}
+		}
+		return out
+	}
+	// node pushed by a slice of a fresh array (variadic packing or slice literal): the *Node stored into it, directly or as a field of a frame
+	pushedNodes := func(sl ssa.Value) []ssa.Value {
+		var out []ssa.Value
+		s2, ok := sl.(*ssa.Slice)
+		if !ok {
+			return nil
+		}
+		arr, ok := s2.X.(*ssa.Alloc)
+		if !ok || arr.Referrers() == nil {
+			return nil
+		}
+		var fromVal func(v ssa.Value, depth int)
+		fromVal = func(v ssa.Value, depth int) {
+			if depth > 3 {
+				return
+			}
+			if namedKey(v.Type()) == igNode {
+				if _, isPtr := v.Type().Underlying().(*types.Pointer); isPtr {
+					out = append(out, v)
+					return
+				}
+			}
+			// a frame value loaded from a local composite literal
+			if u, ok := v.(*ssa.UnOp); ok && u.Op == token.MUL {
+				if al, ok := u.X.(*ssa.Alloc); ok && al.Referrers() != nil {
+					for _, ref := range *al.Referrers() {
+						if fa, ok := ref.(*ssa.FieldAddr); ok && fa.Referrers() != nil {
+							for _, r2 := range *fa.Referrers() {
+								if st, ok := r2.(*ssa.Store); ok && st.Addr == ssa.Value(fa) {
+									fromVal(st.Val, depth+1)
+								}
+							}
+						}
+					}
+				}
+			}
+			// a pointer to a fresh frame
+			if al, ok := v.(*ssa.Alloc); ok && al.Referrers() != nil {
+				for _, ref := range *al.Referrers() {
+					if fa, ok := ref.(*ssa.FieldAddr); ok && fa.Referrers() != nil {
+						for _, r2 := range *fa.Referrers() {
+							if st, ok := r2.(*ssa.Store); ok && st.Addr == ssa.Value(fa) {
+								fromVal(st.Val, depth+1)
+							}
+						}
+					}
+				}
+			}
+		}
+		for _, ref := range *arr.Referrers() {
+			if ia, ok := ref.(*ssa.IndexAddr); ok && ia.Referrers() != nil {
+				for _, r2 := range *ia.Referrers() {
+					if st, ok := r2.(*ssa.Store); ok && st.Addr == ssa.Value(ia) {
+						fromVal(st.Val, 0)
+					}
+					// the frame literal built in place: &arr[0].node = x
+					if fa, ok := r2.(*ssa.FieldAddr); ok && fa.Referrers() != nil {
+						for _, r3 := range *fa.Referrers() {
+							if st, ok := r3.(*ssa.Store); ok && st.Addr == ssa.Value(fa) {
+								fromVal(st.Val, 1)
+							}
+						}
+					}
+				}
+			}
+		}
+		return out
+	}
+	var bad []string
+	checkPush := func(b *ssa.BasicBlock, sl ssa.Value, what string) {
+		nodes := pushedNodes(sl)
+		marks := markedIn(b)
+		if len(nodes) == 0 {
+			bad = append(bad, what+": the pushed node could not be identified")
+			return
+		}
+		for _, nd := range nodes {
+			ok := false
+			for _, mk := range marks {
+				if mk == nd || sameSSAExpr(mk, nd, 0) {
+					ok = true
+				}
+			}
+			if !ok {
+				bad = append(bad, what+" is not accompanied by marking the pushed node in the stack set: edges into it are not recognised as back edges")
+			}
+		}
+	}
+	for _, pu := range pushes {
+		checkPush(pu.Block(), pu.Call.Args[1], "the push at "+m.Pos(pu.Pos()))
+	}
+	for i, e := range stack.Edges {
+		if sl, ok := e.(*ssa.Slice); ok {
+			if _, isArr := sl.X.(*ssa.Alloc); isArr {
+				checkPush(stack.Block().Preds[i], sl, "the initial push")
+			}
+		}
+	}
+	for _, pp := range pops {
+		ok := false
+		for _, in := range pp.Block().Instrs {
+			mu, isMu := in.(*ssa.MapUpdate)
+			if !isMu || mapOrigin(mu.Map) != guardSet || !isConstBool(mu.Value, false) {
+				continue
+			}
+			// key: a node read from the top frame stack[len-1]
+			v := mu.Key
+			for depth := 0; depth < 4; depth++ {
+				u, isU := v.(*ssa.UnOp)
+				if !isU || u.Op != token.MUL {
+					break
+				}
+				switch a := u.X.(type) {
+				case *ssa.FieldAddr:
+					v = a.X
+					continue
+				case *ssa.IndexAddr:
+					if a.X == ssa.Value(stack) {
+						ok = true
+					}
+				}
+				break
+			}
+			if ia, isIA := v.(*ssa.IndexAddr); isIA && ia.X == ssa.Value(stack) {
+				ok = true
+			}
+		}
+		if !ok {
+			bad = append(bad, "the pop at "+m.Pos(pp.Pos())+" does not clear the stack set for the node of the popped frame: the set degenerates into the visited set, so cross and forward edges to finished nodes are reversed as well")
+		}
+	}
+	if len(bad) == 0 {
+		r.add(Obligation{Key: key + ":stack-discipline", Pos: pos, Desc: "explicit stack: every push marks the pushed node in the stack set and every pop clears it for the popped node", Verdict: "holds", Control: ctl})
+	} else {
+		r.add(Obligation{Key: key + ":stack-discipline", Pos: pos, Desc: "the stack set must mirror the explicit stack", Verdict: "violation", Detail: strings.Join(uniq(bad), "; "), Control: ctl})
+	}
+	// driver: functions that reverse must take the edges from the collected field, which nothing else fills
+	for _, st := range collect {
+		ai := classifyAddr(st.Addr)
+		if len(ai.Locs) == 0 || rev == nil {
+			continue
+		}
+		for _, g := range m.Src {
+			if pkgPathOf(g) != pkgPathOf(f) || g == f || m.FuncIsPosctl(g) != ctl {
+				continue
+			}
+			eachInstr(g, func(in ssa.Instruction) {
+				st2, ok := in.(*ssa.Store)
+				if !ok {
+					return
+				}
+				fa2, ok := st2.Addr.(*ssa.FieldAddr)
+				if !ok {
+					return
+				}
+				if _, steps := fieldChain(fa2); locOfSteps(steps) != ai.Locs[0] {
+					return
+				}
+				if !collectedListValueOK(st2.Val, ai.Locs[0], 0) {
+					r.add(Obligation{Key: "dfs-driver:" + funcKey(g) + ":collected-list-replaced", Pos: m.Pos(st2.Pos()), Desc: "the list of back edges holds only what the visitor collected", Verdict: "violation",
+						Detail: "the collected list is overwritten with " + st2.Val.String(), Control: ctl})
+				}
+			})
+			if len(staticCalls(g, func(c *ssa.Function) bool { return c == f })) == 0 {
+				continue
+			}
+			for _, rc := range staticCalls(g, func(c *ssa.Function) bool { return c == rev }) {
+				okSrc := false
+				if u, ok := rc.Common().Args[0].(*ssa.UnOp); ok {
+					if ia, ok := u.X.(*ssa.IndexAddr); ok {
+						for _, o := range originsOf(ia.X, 0) {
+							if o.Loc == ai.Locs[0] {
+								okSrc = true
+							}
+						}
+					}
+				}
+				dk := "dfs-driver:" + funcKey(g)
+				if okSrc {
+					r.add(Obligation{Key: dk, Pos: m.Pos(rc.Pos()), Desc: "the driver reverses exactly the collected back edges", Verdict: "holds", Control: m.FuncIsPosctl(g)})
+				} else {
+					r.add(Obligation{Key: dk, Pos: m.Pos(rc.Pos()), Desc: "the driver must reverse the collected list", Verdict: "violation", Detail: "Reverse is applied to something other than an element of the collected list", Control: m.FuncIsPosctl(g)})
+				}
+			}
+		}
+	}
+	return true
 }
 
 // collectedListValueOK: nil, a fresh empty slice, or a value narrowed from the current content of the same field
